@@ -299,4 +299,50 @@ def fieldSupportedAt (O : Oracles) (tm : TypeMap) (sc : Scope) (future : Bool) (
 def classSupported (O : Oracles) (tm : TypeMap) (c : ClassSp) : Bool :=
   c.fields.all (fieldSupportedAt O tm c.scope c.future)
 
+/-! ### typing's flattening of directly nested unions -/
+
+/-- documented (typing): "Unions of unions are flattened" - the alternatives of a tree of `Union[…]` / `Optional[…]`,
+    left to right; a leaf contributes its own meaning, `None` the NoneField -/
+def flatAlts : Sp → List FieldDecl
+  | .optional x => flatAlts x ++ [.noneF]
+  | .union x y => flatAlts x ++ flatAlts y
+  | .noneLit => [.noneF]
+  | s => [denote s]
+
+def isUnionTree : Sp → Bool
+  | .optional _ | .union _ _ => true
+  | _ => false
+
+/-- the leaves are supported spellings that are not themselves unions (or `None`) -/
+def leavesOk (tm : TypeMap) : Sp → Bool
+  | .optional x => leavesOk tm x
+  | .union x y => leavesOk tm x && leavesOk tm y
+  | .noneLit => true
+  | s => supported tm s && !unionLike s
+
+/-- the typing-level objects of the leaves, left to right -/
+def flatObjs (tm : TypeMap) : Sp → List Obj
+  | .optional x => flatObjs tm x ++ [.noneTy]
+  | .union x y => flatObjs tm x ++ flatObjs tm y
+  | .noneLit => [.noneTy]
+  | s => match ev tm s with
+    | .ok o => [o]
+    | .error _ => []
+
+/-- no two of the objects are `==` (typing would skip the redundant one) -/
+def allDistinct : List Obj → Bool
+  | [] => true
+  | x :: xs => xs.all (fun y => !objEq x y) && allDistinct xs
+
+/-- field declarations whose annotation is such a union tree (no default): outside `fieldSupported`, covered by
+    `C13.elabField_flatten` -/
+def flatRegion (tm : TypeMap) (fs : FieldSp) : Bool :=
+  fs.mode == .ann && isUnionTree fs.ty && leavesOk tm fs.ty && allDistinct (flatObjs tm fs.ty)
+  && (match fs.dflt with | .none => true | _ => false)
+
+/-- documented meaning there: the flattened AnyOf; optional iff `None` is one of the flattened alternatives or the
+    name is listed in `_optional` -/
+def flatMeaning (fs : FieldSp) : FieldRes :=
+  .field (.anyOf (flatAlts fs.ty)) (!((flatAlts fs.ty).any isNoneF || fs.inOptional)) none
+
 end Typedpy.Elab
